@@ -187,6 +187,11 @@ def structured_cases(rng, n, legal_ratio=0.8):
             opts["target"] = rng.choice(["/xl/worksheets/sheet1.xml", "xl/worksheets/sheet1.xml"])
         if rng.random() < 0.15:
             opts["zip_sheet"] = g.recase(rng, "xl/worksheets/sheet1.xml")
+        elif rng.random() < 0.25:
+            # a part outside the conventional folder (the relationship Type says it is a worksheet)
+            part = rng.choice(["sheet1.xml", "ws/a.xml", "data/s.xml", "chartsheets/sheet1.xml", "a/b/1.xml"])
+            opts["target"] = rng.choice(["", "/xl/", "xl/"]) + part
+            opts["zip_sheet"] = "xl/" + part
         if rng.random() < 0.2:
             opts["method"] = rng.choice(["stored", "deflated"])
         out.append((env, sh, opts))
@@ -388,8 +393,17 @@ def gen_workbook(rng, force_relpfx=None):
     rng.shuffle(order)
     sheets = []
     for i, nm in enumerate(names):
+        part = g.gen_part_name(rng, i)
+        r = rng.random()
+        # the Type of the relationship: mostly a worksheet type; any of the eight sheet types is
+        # legal (the parts all hold worksheet XML: the reader goes by the content of the part)
+        typ = g.SHEET_REL_TYPES[0] if r < 0.6 else g.SHEET_REL_TYPES[1] if r < 0.8 else rng.choice(g.SHEET_REL_TYPES)
+        if rng.random() < 0.04:
+            # outside legal_workbook: a Type that names no sheet kind — the reader then goes by the
+            # folder (implementation vs model only)
+            typ = rng.choice([g.NS_REL_DOC + "/styles", "http://example.org/worksheet", g.NS_REL_DOC, ""])
         sheets.append({"name": nm, "rid": "rId%d" % (order[i] + 1) if rng.random() < 0.8 else "R%x" % (order[i] + 10),
-                       "part": "worksheets/sheet%d.xml" % (i + 1) if rng.random() < 0.85 else "worksheets/Tab_%d.xml" % i,
+                       "part": part, "type": typ,
                        "spelling": rng.choice([0, 0, 1, 2]),
                        "extra": [("sheetId", str(i + 1))] + ([("state", rng.choice(["visible", "hidden", "veryHidden"]))] if rng.random() < 0.3 else [])})
     relpfx = force_relpfx if force_relpfx is not None else rng.choice(["r", "r", "r", "relationships"])
@@ -482,6 +496,11 @@ def run_workbooks(ctx, n, tag, relpfx=None):
         ctx.count("workbook:sheets=%d" % len(wb["sheets"]))
         for s in wb["sheets"]:
             ctx.count("target:" + ["relative", "/xl/", "xl/"][s["spelling"]])
+            ctx.count("part:" + ("conventional folder" if s["part"].startswith("worksheets/") else
+                                 "folder of another kind" if s["part"].split("/")[0] in g.CONVENTIONAL_FOLDERS else
+                                 "free name"))
+            ctx.count("reltype:" + (s["type"].rsplit("/", 1)[-1] or "(empty)") +
+                      (" strict" if "purl.oclc.org" in s["type"] else ""))
         ctx.count("relpfx:" + wb["relpfx"])
         keep = False
         if i == "openerr":
